@@ -261,8 +261,8 @@ func (e *Engine) Bin(world string, race bool) string {
 
 // ---- sampling
 
-var ops = []string{"echoJSON", "echoJSON", "echoJSONStream", "echoForm", "echoMultipart", "echoStream", "variants", "secure", "secure2", "echoWild", "echoParams", "echoParams", "echoShapes", "echoShapes", "echoSeg", "echoOpt"}
-var invalids = []string{"pattern", "regexp2", "multipleOf", "maxLength", "enum", "tagpattern"}
+var ops = []string{"echoJSON", "echoJSON", "echoJSONStream", "echoForm", "echoMultipart", "echoStream", "variants", "secure", "secure2", "echoWild", "echoParams", "echoParams", "echoShapes", "echoShapes", "echoSeg", "echoOpt", "echoAny"}
+var invalids = []string{"pattern", "regexp2", "multipleOf", "maxLength", "enum", "tagpattern", "maxprops"}
 var readers = []string{"bytes", "bytes", "onebyte", "dataerr", "half"}
 var creds = []string{"header", "basic+query", "bearer", "header", "none", "wrong"}
 
@@ -288,7 +288,7 @@ var worldRoutes = []struct {
 	{"echoJSON", "POST", []string{"echo", "json", "*"}}, {"echoJSONStream", "POST", []string{"echo", "jsonstream"}}, {"echoForm", "POST", []string{"echo", "form"}},
 	{"echoMultipart", "POST", []string{"echo", "multipart"}}, {"echoStream", "POST", []string{"echo", "stream"}}, {"echoWild", "POST", []string{"echo", "wild"}},
 	{"echoParams", "GET", []string{"echo", "params", "*", "*", "*"}}, {"echoShapes", "POST", []string{"echo", "shapes", "*"}}, {"variants", "POST", []string{"variants"}},
-	{"secure", "GET", []string{"secure"}}, {"secure2", "GET", []string{"secure2"}}, {"echoOpt", "POST", []string{"echo", "opt"}}, {"echoSeg", "GET", []string{"echo", "seg", "~^.+;.+$|v;v", "~^v\\(.+\\)$|v(v)"}},
+	{"secure", "GET", []string{"secure"}}, {"secure2", "GET", []string{"secure2"}}, {"echoOpt", "POST", []string{"echo", "opt"}}, {"echoAny", "POST", []string{"echo", "any"}}, {"echoSeg", "GET", []string{"echo", "seg", "~^.+;.+$|v;v", "~^v\\(.+\\)$|v(v)"}},
 }
 
 // worldRoute says which operation a raw (escaped) path designates: segments are what lies between literal
